@@ -153,7 +153,9 @@ class Sim:
                                      f"created sent msg id {packet[22] if len(packet) > 22 else -1} "
                                      f"{self.loop.time() - self.unload_done:.1f} virtual s after unload() returned")
         for child, parent, t in self.owner_unloaded:
-            if getattr(node, "overlay", None) is parent and packet[:22] == child.get_prefix():
+            if getattr(node, "overlay", None) is parent and packet[:22] == child.get_prefix() \
+                    and not any(c2 is not child and self.owner_unloaded_at(c2) is None and c2.get_prefix() == packet[:22]
+                                for c2 in self.children.get(id(parent), [])):     # no successor with the same prefix is loaded
                 self.violate("endpoint.send:after-unload",
                              f"the {type(child).__name__} that its owner ({type(parent).__name__}, still loaded or not) had unloaded "
                              f"sent msg id {packet[22] if len(packet) > 22 else -1} {self.loop.time() - t:.1f} virtual s after that "
@@ -1395,7 +1397,7 @@ def generate(ctx: Ctx):
     ctx.extra["translated"] = {"classes": [c["name"] for c in meta["classes"]],
                                "scripts": {c["name"]: c["script"] for c in meta["classes"]},
                                "tunnel_endpoint_forwards": meta["forwards"], "sleep_guards": meta["guards"],
-                               "default_remove_tunnel_delay": meta["delay"], "scheduler_facts": meta["scheduler_facts"]}
+                               "default_remove_tunnel_delay": meta["delay"], "scheduler_facts": meta["scheduler_facts"], "service_facts": meta["service_facts"]}
     return [("Ipv8/C11/GenOverlays.lean", src)]
 
 
